@@ -750,6 +750,11 @@ def canon_call(short, args, kwargs):
     return short, out_args, bound
 
 
+_INT_FOLD = {"floordiv": lambda a, b: a // b if b else None, "mod": lambda a, b: a % b if b else None,
+             "lshift": lambda a, b: a << b if 0 <= b < 4096 else None, "rshift": lambda a, b: a >> b if b >= 0 else None,
+             "band": lambda a, b: a & b, "bor": lambda a, b: a | b, "bxor": lambda a, b: a ^ b}
+
+
 def mk_fn(name, args, kwargs=()):
     args = list(args)
     kwargs = sorted(kwargs, key=lambda kv: kv[0])
@@ -761,6 +766,17 @@ def mk_fn(name, args, kwargs=()):
         a = args[0].single_atom()
         if a is not None and a[0] == "fn" and a[1] in ("eq", "ne") and not a[3] and args[0] == Form.atom(a):
             return Form.atom(("fn", "ne" if a[1] == "eq" else "eq", a[2], ()))
+    if name == "abs" and len(args) == 1 and not kwargs and isinstance(args[0], Form) and args[0].rational() is not None:
+        return Form.num(abs(args[0].rational()))
+    if name in _INT_FOLD and len(args) == 2 and not kwargs and all(isinstance(a, Form) for a in args):
+        a, b = args[0].rational(), args[1].rational()
+        if a is not None and b is not None and a.denominator == 1 and b.denominator == 1:
+            try:
+                r = _INT_FOLD[name](int(a), int(b))
+                if r is not None:
+                    return Form.num(r)
+            except Exception:
+                pass
     if name == "sqrt" and len(args) == 1 and isinstance(args[0], Form):
         return fpow(args[0], Fraction(1, 2))
     if name == "square" and len(args) == 1 and isinstance(args[0], Form):
